@@ -311,6 +311,59 @@ class Analysis:
                 visit(g)
         return out
 
+    # ------------------------------------------------------------------ crate helpers that are one addition / subtraction
+    def find_arith_helpers(self):
+        """Crate functions (i64, i64) -> i64 | Option<i64> | Result<i64, _> whose only arithmetic is one addition or
+        subtraction of their two parameters (`fn shifted(t, d) -> Result<i64, E> { t.checked_add(d).ok_or(..) }`):
+        treated like the std operation they wrap."""
+        self.arith = {}
+        for inst in self.f.instances:
+            body = inst["body"]
+            if inst.get("closure") or body["arg_count"] != 2 or not all(self.is_time_int(body["locals"][k + 1]["ty"]) for k in range(2)):
+                continue
+            rt = self.T[body["locals"][0]["ty"]]
+            if self.is_time_int(body["locals"][0]["ty"]):
+                shape = "val"
+            elif rt["k"] == "adt" and not rt.get("local") and rt["args"] and isinstance(rt["args"][0], dict) and "t" in rt["args"][0] and self.is_time_int(rt["args"][0]["t"]):
+                shape = "opt"
+            else:
+                continue
+            param_of = {1: 0, 2: 1}
+            changed = True
+            while changed:
+                changed = False
+                for b in body["blocks"]:
+                    for st in b["stmts"]:
+                        if st["k"] == "assign" and not st["place"]["p"] and st["rv"]["k"] == "use":
+                            pl = st["rv"]["op"].get("c") or st["rv"]["op"].get("m")
+                            if pl is not None and not pl["p"] and pl["l"] in param_of and st["place"]["l"] not in param_of:
+                                param_of[st["place"]["l"]] = param_of[pl["l"]]
+                                changed = True
+            ops = []
+            other = 0
+
+            def pidx(op):
+                pl = op.get("c") or op.get("m")
+                return param_of.get(pl["l"]) if pl is not None and not pl["p"] else None
+
+            for b in body["blocks"]:
+                for st in b["stmts"]:
+                    if st["k"] == "assign" and st["rv"]["k"] == "binop":
+                        if st["rv"]["op"] in ADD_OPS:
+                            ops.append(("add" if st["rv"]["op"].startswith("Add") else "sub", pidx(st["rv"]["a"]), pidx(st["rv"]["b"])))
+                        elif st["rv"]["op"] not in CMP_OPS:
+                            other += 1
+                t = b["term"]
+                if t["k"] == "call" and t["f"]["k"] == "item":
+                    r = t["f"]["resolved"] or t["f"]["declared"]
+                    name = r["def"].rsplit("::", 1)[-1]
+                    if not r.get("local") and name in ARITH_CALLS and "core::num" in r["def"] and len(t["args"]) == 2:
+                        ops.append((ARITH_CALLS[name][0], pidx(t["args"][0]), pidx(t["args"][1])))
+                    elif r.get("local"):
+                        other += 1
+            if len(ops) == 1 and other == 0 and sorted(x for x in ops[0][1:] if x is not None) == [0, 1]:
+                self.arith[inst["id"]] = {"kind": ops[0][0], "a": ops[0][1], "b": ops[0][2], "shape": shape, "name": inst["name"]}
+
     # ------------------------------------------------------------------ conversions
     def find_conversions(self):
         corr = self.S.correction
@@ -365,11 +418,14 @@ class Analysis:
                 if t["k"] == "call" and t["f"]["k"] == "item":
                     r = t["f"]["resolved"] or t["f"]["declared"]
                     name = r["def"].rsplit("::", 1)[-1]
-                    if not r.get("local") and name in ARITH_CALLS and "core::num" in r["def"] and len(t["args"]) == 2:
+                    ah = self.arith.get(r.get("inst")) if r.get("local") else None
+                    if ((not r.get("local") and name in ARITH_CALLS and "core::num" in r["def"]) or ah is not None) and len(t["args"]) == 2:
                         a, c = t["args"]
+                        if ah is not None and ah["a"] == 1:
+                            a, c = c, a  # the helper computes param2 (op) param1
                         if isk(a) and isk(c):
                             continue
-                        kind = ARITH_CALLS[name][0]
+                        kind = ARITH_CALLS[name][0] if ah is None else ah["kind"]
                         if kind == "add" and (isk(a) or isk(c)):
                             dirs.add("U->L")
                         if kind == "sub" and isk(c):
@@ -442,6 +498,7 @@ class Analysis:
     # ------------------------------------------------------------------ per group analysis
     def run(self):
         self.build_groups()
+        self.find_arith_helpers()
         self.find_conversions()
         for g in self.order():
             if g in self.conversions:
@@ -472,7 +529,6 @@ class Analysis:
             self.gen(G, self.insts[m], deferred)
         for d in deferred:
             self.extern_call(G, *d)
-        self.stats["unions"] += uf.unions
         # parameter seeds of this very function (public entry points)
         inst = self.insts[g]
         ps = self.S.param_seeds.get(inst["name"])
@@ -480,6 +536,8 @@ class Analysis:
             for k, sc in ps.items():
                 if k < inst["body"]["arg_count"]:
                     uf.seed(self.entry_node(G, inst, k + 1), sc, "parameter %d of %s (public API: a UTC Unix time)" % (k + 1, inst["name"]), inst.get("span"))
+        self.resolve_multi_uses(G)
+        self.stats["unions"] += uf.unions
         self.check_group(G)
         self.summaries[g] = G
 
@@ -555,16 +613,7 @@ class Analysis:
                 if ch and s not in inq:
                     inq.add(s)
                     work.append(s)
-        # webs: union of defs reaching a common use
-        wparent = {}
-
-        def wf(x):
-            while wparent.setdefault(x, x) != x:
-                wparent[x] = wparent[wparent[x]]
-                x = wparent[x]
-            return x
-
-        use_web = {}  # (bi, si, l) -> def id
+        use_web = {}  # (bi, si, l) -> sorted list of reaching definitions
 
         def uses_in(x, acc):
             if isinstance(x, dict):
@@ -575,8 +624,6 @@ class Analysis:
                             acc.append(p["idx"])
                     return
                 for k2, v in x.items():
-                    if k2 in ("place", "dest") and False:
-                        continue
                     uses_in(v, acc)
             elif isinstance(x, list):
                 for v in x:
@@ -600,16 +647,10 @@ class Analysis:
                             uses_in(v, acc)
                 for l in acc:
                     if l in cand:
-                        ds = cur.get(l) or {(-1, l)}
-                        ds = list(ds)
-                        r0 = wf(ds[0])
-                        for d in ds[1:]:
-                            wparent[wf(d)] = r0
-                            r0 = wf(r0)
-                        use_web[(bi, si, l)] = ds[0]
+                        use_web[(bi, si, l)] = sorted(cur.get(l) or {(-1, l)})
                 if (bi, si) in defs_at:
                     cur[defs_at[(bi, si)]] = {(bi, si)}
-        G["webs"][inst["id"]] = (use_web, {"wf": wf, "defs_at": defs_at, "cand": cand})
+        G["webs"][inst["id"]] = (use_web, {"defs_at": defs_at, "cand": cand})
 
     def delta_locals(self, G, inst):
         body = inst["body"]
@@ -700,17 +741,33 @@ class Analysis:
 
     # --- nodes
     def local_node(self, G, inst, l, at=None):
-        """Node of a local; `at` = (bi, si, 'use'|'def') selects the web of a split local."""
+        """Node of a local; `at` = (bi, si, 'use'|'def') selects the definition of a split local.  A use reached by
+        several definitions gets a node of its own; which definitions it is joined with is decided in
+        resolve_multi_uses (a variable reused for two scales is joined only with the definitions that fit)."""
         use_web, info = G["webs"][inst["id"]]
         ver = 0
         if info and l in info["cand"]:
             if at is None:
-                d = (-1, l)
+                ver = (-1, l)
             elif at[2] == "def":
-                d = (at[0], at[1])
+                ver = (at[0], at[1])
             else:
-                d = use_web.get((at[0], at[1], l), (-1, l))
-            ver = info["wf"](d)
+                ds = use_web.get((at[0], at[1], l)) or [(-1, l)]
+                if len(ds) == 1:
+                    ver = ds[0]
+                else:
+                    ver = ("use", at[0], at[1])
+                    key = (inst["id"], l, ver)
+                    if key not in G["roots"]:
+                        name = inst["body"]["locals"][l].get("name") or "_%d" % l
+                        n = G["uf"].new("%s" % name)
+                        G["roots"][key] = n
+                        span = None
+                        blk = inst["body"]["blocks"][at[0]]
+                        it = (blk["stmts"] + [blk["term"]])[at[1]]
+                        span = it.get("span")
+                        G.setdefault("multi_uses", []).append((n, [self.local_node(G, inst, l, (d[0], d[1], "def")) if d[0] != -1 else self.local_node(G, inst, l, None) for d in ds], inst, span, name))
+                    return G["roots"][key]
         key = (inst["id"], l, ver)
         n = G["roots"].get(key)
         if n is None:
@@ -718,6 +775,50 @@ class Analysis:
             n = G["uf"].new("%s" % name)
             G["roots"][key] = n
         return n
+
+    def scales_of(self, uf, cache, n):
+        return cache.get(uf.find(n), frozenset())
+
+    def resolve_multi_uses(self, G):
+        uf = G["uf"]
+        mus = G.get("multi_uses", [])
+        if not mus:
+            return
+        for sweep in (0, 1, 2):
+            cache = {}
+            for n, ss in enumerate(uf.seeds):
+                if ss:
+                    r = uf.find(n)
+                    cache[r] = cache.get(r, frozenset()) | frozenset(s[0] for s in ss)
+            rest = []
+            for use, defs, inst, span, name in mus:
+                dsc = [self.scales_of(uf, cache, d) for d in defs]
+                allsc = frozenset().union(*dsc) if dsc else frozenset()
+                why = self.why(inst, span, "use of `%s` reached by %d definitions" % (name, len(defs)))
+                if len(allsc) <= 1:
+                    for d in defs:
+                        uf.union(use, d, why)
+                    continue
+                if sweep == 0:
+                    rest.append((use, defs, inst, span, name))
+                    continue
+                su = self.scales_of(uf, cache, use)
+                fit = [d for d, sc in zip(defs, dsc) if not sc or (sc & su)]
+                if not su:
+                    rest.append((use, defs, inst, span, name))
+                    if sweep < 2:
+                        continue
+                    fit = [d for d, sc in zip(defs, dsc) if not sc]
+                    self.stats["reused_variables"] = self.stats.get("reused_variables", 0) + 1
+                elif not [d for d, sc in zip(defs, dsc) if sc & su]:
+                    fit = defs  # no definition on the scale this use needs: a genuine conflict
+                else:
+                    self.stats["reused_variables"] = self.stats.get("reused_variables", 0) + 1
+                for d in fit:
+                    uf.union(use, d, why + (" (variable reused for several scales: joined with the fitting definitions only)" if len(fit) < len(defs) else ""))
+            mus = rest
+            if not mus:
+                break
 
     def entry_node(self, G, inst, l):
         return self.local_node(G, inst, l, None)
@@ -786,6 +887,7 @@ class Analysis:
             return True
 
         G.setdefault("offset_shift", {})[inst["id"]] = offset_shift
+        G.setdefault("is_delta", {})[inst["id"]] = lambda op: is_delta(op)
 
         def is_delta(op):
             if "k" in op and isinstance(op["k"], dict):
@@ -911,6 +1013,20 @@ class Analysis:
                         res = uf.child(dst, ("targ", n))
                         break
             uf.seed(res, dstscale, "result of the %s conversion %s" % (cv["dir"], cv["name"]), span)
+            return
+        ah = self.arith.get(cid)
+        if ah is not None and len(argn) == 2:
+            res = uf.child(dst, ("targ", 0)) if ah["shape"] == "opt" else dst
+            ops = list(t["args"])
+            nodes = [a for a, _ in argn]
+            if ah["a"] == 1:
+                ops, nodes = ops[::-1], nodes[::-1]
+            is_delta = G["is_delta"][inst["id"]]
+            if G["offset_shift"][inst["id"]](ah["kind"], ops, nodes, res, span):
+                return
+            for o, a in zip(ops, nodes):
+                if a is not None and not is_delta(o):
+                    uf.union(res, a, self.why(inst, span, "arithmetic helper %s keeps the scale of its time operand" % callee["name"]))
             return
         # closure of this group: same universe
         if self.top[cid] == G["top"] and callee.get("closure"):
